@@ -158,6 +158,15 @@ def special_progs(rng):
                 pr["_custom_lits"] = ['"F0"', '"_"']; pr["_lit_defect"] = "unknown"
     q["defect"] = "none+lit-unknown"
     out.append(q)
+    # a field name written in another letter case names no field (every property's run sees this one; random draws are rare)
+    q = Pclean(synth.mkset(0, [], [mk(1, [0, 1], [2], struct=True), mk(2, 2, [])]), [], 0, "lit-case:struct-field-name", cleanup=False, err=False)
+    q["star"] = False
+    for x in spec.all_sets(q["tree"]):
+        for pr in x["providers"]:
+            if pr["struct"]:
+                pr["_custom_lits"] = ['"f0"']; pr["_lit_defect"] = "case"
+    q["defect"] = "none+lit-case"
+    out.append(q)
     # both forms of a struct provider consumed by one injector: two separate fresh structs
     out.append(P(synth.mkset(0, [], [mk(1, [0, 1], [2], struct=True), mk(2, 2, []), mk(3, 4, [0, 1])]), [], 4, "none:struct-both-forms", cleanup=False, err=False))
     out.append(P(synth.mkset(0, [], [mk(1, [0, 1], [2], struct=True), mk(2, 2, []), mk(3, 4, [1, 0])]), [], 4, "none:struct-both-forms-ptr-first", cleanup=False, err=False))
